@@ -442,6 +442,73 @@ def tcp_case(exe, r, run, stats, witness):
     return w, ("tcp", proto, n_before, n_after, fate, t_fate)
 
 
+def server_mcast_case(exe, r, run, stats, witness):
+    """server side: an observer with Confirmable notifications that it does not acknowledge
+    (they are in flight until given up) also sends a multicast request, whose answer the
+    server delays (leisure) and sends from its retransmission queue.  However the timers
+    fall, the observer's session never has more than NSTART Confirmable notifications in
+    flight"""
+    nstart = r.choice([1, 1, 2])
+    w = world.World(exe, seed=r.getrandbits(30))
+    sim = world.Sim(w, latency=1)
+    witness["script"] = w.script
+    witness["server_mcast"] = {"nstart": nstart}
+    sim.add_node(0)
+    if nstart > 1:
+        sim.cmd("ctx 0 srv_nstart=%d" % nstart)
+    sim.cmd("ep 0 udp 10.0.0.1:5683")
+    sim.cmd("res 0 %s body=counter obs=1 flags=2" % b"c".hex())
+    sim.cmd("res 0 %s body=fixed:6d" % b"m".hex())
+    peer = "10.0.7.1:50000"
+    seen = []
+
+    def p(sm, frm, to, data):
+        try:
+            m = cw.decode(data, "udp")
+        except Exception:
+            return
+        seen.append((sm.now, m))
+        # only the registration reply is acknowledged (it is piggybacked anyway)
+    sim.peers[peer] = p
+    sim.inject(peer, "10.0.0.1:5683", cw.encode(cw.msg(1, type=0, mid=1, token=b"\x01",
+                                                       options=[(6, b""), (11, b"c")]), "udp"))
+    sim.run(until=sim.elapsed() + 50, quiesce=False)
+    mid = 10
+    for step in range(r.choice([3, 5, 8])):
+        x = r.random()
+        if x < 0.5:
+            sim.cmd("notify 0 c")
+        else:
+            mid += 1
+            sim.inject(peer, "224.0.1.187:5683", cw.encode(
+                cw.msg(1, type=1, mid=mid, token=bytes([2, step]), options=[(11, b"m")]), "udp"))
+            stats["server_mcast_requests"] = stats.get("server_mcast_requests", 0) + 1
+        sim.run(until=sim.elapsed() + r.choice([10, 900, 3000, 7000]), quiesce=False)
+    sim.cmd("notify 0 c")
+    sim.run(until=sim.elapsed() + 4000, quiesce=False)
+    # in flight at time t: Confirmable notifications first sent at or before t and not yet
+    # given up (the peer acknowledges none): give-up comes ~45 s or more after the first
+    # transmission with the default parameters, the run is shorter than that per message
+    first = {}
+    for t, m in seen:
+        if m["type"] == 0 and m["code"] == 0x45:
+            first.setdefault(m["mid"], t)
+    nacked = {}
+    for e in w.cmd("peek 0"):
+        pass
+    times = sorted(first.values())
+    stats["server_mcast_cases"] = stats.get("server_mcast_cases", 0) + 1
+    for i, t in enumerate(times):
+        live = [x for x in times[:i + 1] if t - x < 40000]
+        if len(live) > nstart:
+            run.violation("more-than-nstart-in-flight/server-notifications", dict(
+                witness, first_transmissions=sorted(first.items(), key=lambda kv: kv[1])),
+                "NSTART %d: %d unacknowledged Confirmable notifications in flight at %d "
+                "(first transmissions %r)" % (nstart, len(live), t, live))
+            break
+    return w, ("server-mcast", nstart, len(first))
+
+
 def work(job):
     items, exe = job
     run = common.Run("C08", "quick", "exploration")
@@ -454,6 +521,12 @@ def work(job):
         w = None
         witness = {"item": it, "seed": common.seed()}
         try:
+            if it % 16 == 5:
+                w, sig = server_mcast_case(exe, r, run, stats, witness)
+                world.teardown_check(run, "C08", w, witness)
+                sigs.add(sig)
+                n += 1
+                continue
             if it % 8 == 7:
                 w, sig = tcp_case(exe, r, run, stats, witness)
                 world.teardown_check(run, "C08", w, witness)
@@ -489,7 +562,9 @@ def main(tier):
                 "session failure early / mid-burst; window, order and conservation judged over "
                 "the trace; one case in eight: a TCP or WebSocket client session on which 1..8 "
                 "messages are submitted before the peer's CSM, which then arrives, or the peer "
-                "closes, or no CSM comes and the application releases the session; distinct_nontrivial = distinct scenario "
+                "closes, or no CSM comes and the application releases the session; one in sixteen: a "
+                "server whose observer leaves Confirmable notifications unacknowledged and sends "
+                "multicast requests (delayed answers from the retransmission queue); distinct_nontrivial = distinct scenario "
                 "signatures")
     run.assumptions = ["the peer only acknowledges/resets what it received (generator)",
                        "in-flight = first transmitted and not yet acked/reset/given up, "
@@ -523,4 +598,5 @@ def main(tier):
     run.require("failed_writes", stats.get("failed_writes", 0), 50)
     run.require("tcp_established", stats.get("tcp_established", 0), 40)
     run.require("tcp_failed", stats.get("tcp_failed", 0), 20)
+    run.require("server_mcast_requests", stats.get("server_mcast_requests", 0), 50)
     return run.finish()
